@@ -12,7 +12,7 @@ import (
 // WriterConfig.Validate recorded "end timestamp must be after or equal to start timestamp"
 // on a validator and then returned nil: a writer with an inverted preset range opens, and
 // only its commits fail later.
-func TestF30InvertedWriterRangeIsRejected(t *testing.T) {
+func TestO1InvertedWriterRangeIsRejected(t *testing.T) {
 	ctx := context.Background()
 	db, err := domain.Open(domain.Config{FS: xfs.NewMem()})
 	if err != nil {
